@@ -351,3 +351,8 @@ CORPUS = [
 ]
 
 PROP = Prop()
+
+import parts  # noqa: E402
+import parts_misc  # noqa: E402
+
+parts.attach(PROP, parts_misc.ZIPIO)   # the byte transport of save/load (model Forest/MiscZipIO.v, theorems at the end of Properties/C05.v)
